@@ -691,13 +691,13 @@ pub fn run_case(family: &str, seed: u64) {
 
 fn cases_for(tier_quick: bool, family: &str) -> u64 {
     let (q, t) = match family {
-        "rule" => (24_000, 600_000),
-        "transform" => (40_000, 800_000),
-        "request" => (60_000, 1_500_000),
-        "body" => (40_000, 1_000_000),
-        "analysis" => (12_000, 300_000),
+        "rule" => (24_000, 240_000),
+        "transform" => (40_000, 400_000),
+        "request" => (60_000, 600_000),
+        "body" => (40_000, 400_000),
+        "analysis" => (12_000, 120_000),
         "stack" => (48, 240),
-        _ => (40_000, 800_000),
+        _ => (40_000, 400_000),
     };
     if tier_quick {
         q
